@@ -96,11 +96,12 @@ func drawFrame1(t *rapid.T, label string, genuine *[]*mocrelay.Event) frame {
 		n := (total - len(head) - len(tail)) / len(unit)
 		return frame{Class: "corrupt:near-limit-invalid", Text: head + strings.Repeat(unit, n) + tail, subID: "big"}
 	case k == 20: // large valid EVENT (tens of kilobytes, still inside the relay's default size limit)
-		unit := rapid.SampledFrom([]string{"x", "é", "<>&"}).Draw(t, label+"unit")
+		unit := rapid.SampledFrom([]string{"x", "é", "<>&", "😀", "\n", "😀\n\""}).Draw(t, label+"unit")
 		count := rapid.IntRange(12000, 28000).Draw(t, label+"biglen")
+		shift := strings.Repeat("s", rapid.IntRange(0, 7).Draw(t, label+"shift"))
 		key := gen.Keys[rapid.IntRange(0, gen.NKeys-1).Draw(t, label+"key")]
 		for attempt := 0; ; attempt++ {
-			e := &mocrelay.Event{Kind: 1, CreatedAt: 1700000000, Tags: []mocrelay.Tag{}, Content: strings.Repeat(unit, count)}
+			e := &mocrelay.Event{Kind: 1, CreatedAt: 1700000000, Tags: []mocrelay.Tag{}, Content: shift + strings.Repeat(unit, count)}
 			gen.Sign(e, key)
 			m := &gen.WireMsg{Label: "EVENT", Event: e}
 			m.Doc = gen.JArr{gen.JStr("EVENT"), gen.WireEventDoc(t, e, fmt.Sprintf("%sdoc%d.", label, attempt))}
